@@ -167,8 +167,8 @@ CLAIMED = {
           "output must reproduce the input bit for bit. A second recording by the same from_data backend with the same or "
           "the flipped digitise flag is part of the model."),
     note=("Trusted: TLC, harness GUPPI writer/parser, reference PFB; observation through wrappers on _read_next_block and "
-          "the requantisers' RealQuantizer.quantize (pipeline-internal methods). Sub-block counts divide the windows "
-          "per block here. Quantisation formula itself is C09's."),
+          "the requantisers' RealQuantizer.quantize (pipeline-internal methods). A third of the configurations have a "
+          "window count that num_subblocks does not divide (shorter last sub-block). Quantisation formula itself is C09's."),
     technique="TLA+ model (TLC exhaustive) + spec-generated configurations replayed on the implementation with wrapped pipeline stages",
     design_ref="DESIGN.md 4.10, 5 (C14)", engine="inputmode"),
  "C07": dict(
